@@ -25,6 +25,9 @@ CLAIMS["C08"] = ("proof", "contract-based deductive verification: WP VCs over go
 CLAIMS["C10"] = ("other", "contract-based deductive verification: the reader's flags are proved to refine the exclusion automaton of the property on live lines; three excluded-line clauses fail and are recorded as known findings",
          "Unbounded proof of ContentReader.emptyCurrentLine (newlines kept, everything before the first pint comment or the whole line inside a block blanked, nothing else changed), of parseComments on live lines (no marker: text and flags unchanged; next-line / begin / line / file markers move the automaton as documented) and on excluded lines without pint comments (fully blank, automaton step independent of the text), and of readNextLine (the line table is built from the blanked text). Three clauses about excluded lines that carry pint comments do not hold on the pinned tree; they are genuine defects, replayed on the real code and listed in known_findings.txt, which is why the level is 'other' and not 'proof'.",
          "comments.Parse is abstract (any list of typed comments with offsets); yaml.v3's treatment of blank lines of different length is not modelled; ignore/file relies on discovery dropping the file body", "DESIGN.md §7 C10")
+CLAIMS["C17"] = ("proof", "contract-based deductive verification with ghost sets (created / deferred / deleted comments) over an abstract Commenter; WP VCs over go/ssa, discharged by z3/cvc5",
+         "Unbounded proof, for every list of existing and pending comments and every platform behaviour of IsEqual/CanCreate/CanDelete, that updateDestination creates a comment only for a pending comment with no equal existing comment and only while the budget predicate allows (the budget counts successful creations), that after a run every pending comment is covered by an equal existing comment, a created comment or is deferred by the budget, that a comment is deleted only if it equals no pending comment and may be deleted, and that every such deletable stale comment is deleted; with CanCreate (done < maxComments), CanDelete and GitLab's IsEqual under contract.",
+         "A7: platform store semantics (a created comment is later listed as an equal existing comment) and the assumed effect-free contracts on the Commenter interface; the spec-level 'second run is a no-op' lemma and dedupReports/makeComments grouping are not yet under contract; GitHub's line fixing in IsEqual is outside", "DESIGN.md §7 C17")
 NA = {
  "C19": "two-run relational property of two recursive traversals over a third-party AST (yaml.Node) quantified over wrappers of arbitrary depth; no contract within reach of the generator can state it (DESIGN.md §8)",
 }
